@@ -37,7 +37,8 @@ Definition is_abs (a : src) : bool := match a with Local _ => false | _ => true 
 (* the LocalSource case of both Resolve functions *)
 Definition resolve_local (a b : str) : str :=
   let n := join2 a b in
-  if looks_like_local n then n else dotslash ++ n.
+  if str_eqb n [dot] || str_eqb n [dot; dot] then n ++ [slash]
+  else if looks_like_local n then n else dotslash ++ n.
 
 (* ResolveRelativeSource and ResolveRelativeFinalSource (the union of the two
    interfaces: Source = Local|Registry|Remote, FinalSource = Local|RegistryFinal|Remote) *)
